@@ -10,9 +10,13 @@
 //!             (`checked` and `reprs` are for the model only: the arithmetic of this binary and the
 //!              representations an un-ranged GET receives, as observed by `range.repr`)
 //!             kind   : 0 handler page (answers `status`, default 200), 1 file read by kvarn, 2 file streamed by
-//!                      `extensions::stream_body()` (prepare_fn for every path below /f)
+//!                      `extensions::stream_body()` (prepare_fn for every path below /f), 3 handler page requested as
+//!                      /p?x=1 with ServerCachePreference::QueryMatters (cache entry keyed by path and query), 4 handler
+//!                      page with a vary rule on `accept-language` (request field `lang`, see below)
 //!             method : 0 GET, 1 HEAD, 2 POST (content-length: 0)
 //!             range  : the values of the `Range` header LINES of the request, in order (none, one, several)
+//!             a request may have a 5th field `lang`: 0 no `Accept-Language`, n > 0 `Accept-Language: l<n>` (kind 4: a
+//!                      cached page that has no variant for this value goes through `handle_vary_missing`)
 //!             ims    : 0 none, 1 `If-Modified-Since` in the year 2100 (the client's copy is fresh), 2 in the year 1990 (stale)
 //! range.repr  input : (L (L cache_on pref_full compress kind [status]) body)
 //!             output: (L (L (L [content-encoding]) body decodes) ...) for the Accept-Encoding classes 0..5 — each from a
@@ -99,9 +103,20 @@ fn build(cfg: Cfg, body: &[u8]) -> Option<(c00pipe::Built, &'static [u8])> {
     let mut kv = vec![kvp("cache", X::bool(cfg.cache_on))];
     let mut handlers = vec![handler("/s", 200, SENTINEL, 0, false)];
     let target: &'static [u8] = match cfg.kind {
-        0 => {
+        0 | 4 => {
             handlers.push(handler("/p", cfg.status, body, if cfg.pref_full { 2 } else { 0 }, cfg.compress));
+            if cfg.kind == 4 {
+                // (L (L path (L (L name xform default) ...)) ...): the lower-cased value of accept-language selects the variant
+                kv.push(kvp(
+                    "vary",
+                    X::L(vec![X::L(vec![X::b("/p"), X::L(vec![X::L(vec![X::b("accept-language"), X::N(0), X::b("none")])])])]),
+                ));
+            }
             b"/p"
+        }
+        3 => {
+            handlers.push(handler("/p", cfg.status, body, if cfg.pref_full { 1 } else { 0 }, cfg.compress));
+            b"/p?x=1"
         }
         1 | 2 => {
             kv.push(kvp("files", X::L(vec![X::L(vec![X::b("public/f.txt"), X::b(body)])])));
@@ -173,7 +188,8 @@ impl Client {
     }
 
     /// Sends one request, reads one framed response.
-    async fn exchange(&mut self, method: u8, target: &[u8], ae: Option<&[u8]>, ranges: &[Vec<u8>], ims: u8) -> std::io::Result<Reply> {
+    #[allow(clippy::too_many_arguments)]
+    async fn exchange(&mut self, method: u8, target: &[u8], ae: Option<&[u8]>, ranges: &[Vec<u8>], ims: u8, lang: u8) -> std::io::Result<Reply> {
         let head = method == 1;
         use tokio::io::{AsyncReadExt, AsyncWriteExt};
         if self.stream.is_none() {
@@ -195,6 +211,9 @@ impl Client {
         }
         if method == 2 {
             req.extend_from_slice(b"Content-Length: 0\r\n");
+        }
+        if lang > 0 {
+            req.extend_from_slice(format!("Accept-Language: l{lang}\r\n").as_bytes());
         }
         for r in ranges {
             req.extend_from_slice(b"Range: ");
@@ -327,6 +346,8 @@ struct Req {
     ranges: Vec<Vec<u8>>,
     /// `If-Modified-Since`: 0 none, 1 far in the future, 2 far in the past
     ims: u8,
+    /// `Accept-Language: l<lang>` (0: none)
+    lang: u8,
 }
 
 /// A read timeout is, almost always, the machine (load), not the code: the history is run again on a fresh host, up to
@@ -367,7 +388,7 @@ fn run_history_once(cfg: Cfg, body: &[u8], reqs: &[Req]) -> X {
         let mut client = Client { stream: None, desc, pending: Vec::new() };
         let mut out = Vec::new();
         for (i, q) in reqs.iter().enumerate() {
-            match client.exchange(q.method, target, q.ae, &q.ranges, q.ims).await {
+            match client.exchange(q.method, target, q.ae, &q.ranges, q.ims, q.lang).await {
                 Ok(r) => {
                     // framing of a GET reply: exactly content-length bytes were read; of every reply: the header is there
                     if r.content_length.is_none() {
@@ -384,7 +405,7 @@ fn run_history_once(cfg: Cfg, body: &[u8], reqs: &[Req]) -> X {
                 Err(e) => return fail(93, i, format!("{:?}: {}", e.kind(), e)),
             }
         }
-        match client.exchange(0, b"/s", None, &[], 0).await {
+        match client.exchange(0, b"/s", None, &[], 0, 0).await {
             Ok(r) if r.status == 200 && r.body == SENTINEL && client.pending.is_empty() => {}
             Ok(r) => return fail(92, reqs.len(), format!("sentinel reply {} {:?}", r.status, String::from_utf8_lossy(&r.body))),
             Err(e) if e.kind() == std::io::ErrorKind::TimedOut => return fail(93, reqs.len(), format!("TimedOut: sentinel: {e}")),
@@ -410,7 +431,7 @@ fn conn(x: &X) -> X {
     let mut reqs = Vec::new();
     for r in rs {
         let q = match r.as_l() {
-            Some(q) if q.len() == 3 || q.len() == 4 => q,
+            Some(q) if (3..=5).contains(&q.len()) => q,
             _ => return X::bad(),
         };
         let (m, ae, hs) = match (q[0].as_n(), q[1].as_n().and_then(ae_text), q[2].as_l()) {
@@ -435,7 +456,12 @@ fn conn(x: &X) -> X {
             }
             ranges.push(v.to_vec());
         }
-        reqs.push(Req { method: m, ae, ranges, ims });
+        let lang = match q.get(4).map(X::as_n) {
+            None => 0,
+            Some(Some(l)) if l < 10 => l as u8,
+            _ => return X::bad(),
+        };
+        reqs.push(Req { method: m, ae, ranges, ims, lang });
     }
     run_history(cfg, body, &reqs)
 }
@@ -451,7 +477,7 @@ fn repr(x: &X) -> X {
     };
     let mut out = Vec::new();
     for ae in 0..6u128 {
-        let r = run_history(cfg, body, &[Req { method: 0, ae: ae_text(ae).unwrap(), ranges: vec![], ims: 0 }]);
+        let r = run_history(cfg, body, &[Req { method: 0, ae: ae_text(ae).unwrap(), ranges: vec![], ims: 0, lang: 0 }]);
         // (L (N 0) (L (L status (L) len (L [enc]) ar body)))
         let rep = r.as_l().filter(|l| l.len() == 2 && l[0] == X::N(0)).and_then(|l| l[1].as_l()).and_then(|l| l.first()).and_then(X::as_l);
         match rep {
@@ -480,9 +506,9 @@ fn ims(x: &X) -> X {
         cfg,
         body,
         &[
-            Req { method: 0, ae: None, ranges: vec![], ims: 0 },
-            Req { method: 0, ae: None, ranges: vec![range.to_vec()], ims: 1 },
-            Req { method: 0, ae: None, ranges: vec![], ims: 1 },
+            Req { method: 0, ae: None, ranges: vec![], ims: 0, lang: 0 },
+            Req { method: 0, ae: None, ranges: vec![range.to_vec()], ims: 1, lang: 0 },
+            Req { method: 0, ae: None, ranges: vec![], ims: 1, lang: 0 },
         ],
     )
 }
